@@ -242,8 +242,11 @@ def r6(ctx):
         key = MG + "Board::" + fn
         ctx.used_body(key)
         body = P.body(key)
-        eng = T.Engine(P, opaque={is_legal, MG + "Board::" + unchecked})
-        eng.trace_calls = {MG + "Board::" + unchecked}
+        # a checked wrapper may be written in terms of another checked wrapper (move_mut via move_new, ...): those are inlined, and
+        # whichever unchecked operation is finally reached is the one the gate is about
+        UNCHECKED = {MG + "Board::" + u for u in ("move_unchecked", "move_unchecked_mut", "move_unchecked_into")}
+        eng = T.Engine(P, opaque={is_legal} | UNCHECKED)
+        eng.trace_calls = set(UNCHECKED)
         leaves = eng.tabulate(key)
         gate_ok, refuse_ok, n_acc = True, True, 0
         for lf in leaves:
